@@ -297,6 +297,36 @@ def runCtx {V : Type} (ctxs : Nat → Nat → V) (log : List (Nat × Nat × V)) 
     (Nat → Nat → V) × List (Nat × Nat × V) :=
   ops.foldl (fun acc o => stepCtx acc.1 acc.2 o) (ctxs, log)
 
+/-! ### per-request context variables inside ONE task and in tasks spawned from it
+
+  `generate_async` starts with a prologue that stores the request's own values in context variables
+  (`generation_options_var.set(options)`, `llm_stats_var.set(...)`, `raw_llm_request.set(...)`); the actions
+  it awaits later read them.  A program is what one asyncio task does: requests awaited one after the other
+  (they share the task's context, so what a request sets is still there when the next one starts) and tasks
+  spawned in between (`create_task` / `gather`: the child works on a COPY of the context taken at that moment;
+  nothing flows back).  `prologue own ctx` is the value of the variable after the prologue of a request whose
+  own value is `own`; `reads` is the number of times the request reads the variable afterwards. -/
+
+inductive Prog (V : Type) where
+  | done : Prog V
+  | req (id : Nat) (own : V) (reads : Nat) (rest : Prog V) : Prog V
+  | spawn (child : Prog V) (rest : Prog V) : Prog V
+
+/-- log of reads: (request id, the request's own value, the value it read) -/
+def runProg {V : Type} (prologue : V → V → V) : V → Prog V → List (Nat × V × V)
+  | _, .done => []
+  | w, .req id own n rest =>
+    let w' := prologue own w
+    List.replicate n (id, own, w') ++ runProg prologue w' rest
+  | w, .spawn child rest => runProg prologue w child ++ runProg prologue w rest
+
+/-- the prologue of the current source: `var.set(own)` unconditionally -/
+def prologueSet {V : Type} : V → V → V := fun own _ => own
+
+/-- a prologue that only sets a truthy value (`if options: var.set(options)`) — what `streaming_handler_var`
+    does today and what `generation_options_var` must never do -/
+def prologueIfSome {α : Type} : Option α → Option α → Option α := fun own w => if own.isSome then own else w
+
 end Ctx
 
 end NemoVerif.Isolation
